@@ -1,0 +1,82 @@
+//! Iteration-related constructors for the verification harness (feature `verif`). Add-only.
+
+use std::sync::atomic::AtomicUsize;
+use std::sync::Arc;
+
+use crate::operator::iteration::iteration_end::IterationEnd;
+use crate::operator::iteration::leader::IterationLeader;
+use crate::operator::iteration::{IterationResult, IterationStateLock, StateFeedback};
+use crate::operator::{ExchangeData, Operator};
+use crate::scheduler::BlockId;
+use crate::verif::{Coord, FakeNet, FakeReceiver};
+
+/// The real `IterationLeader`; deltas are read from block `feedback_block_id`.
+pub fn leader<Delta, State, G, C>(
+    initial_state: State,
+    num_iterations: usize,
+    global_fold: G,
+    loop_condition: C,
+    feedback_block_id: BlockId,
+) -> impl Operator<Out = State>
+where
+    Delta: ExchangeData,
+    State: ExchangeData,
+    G: Fn(&mut State, Delta) + Send + Clone,
+    C: Fn(&mut State) -> bool + Send + Clone,
+{
+    IterationLeader::new(
+        initial_state,
+        num_iterations,
+        global_fold,
+        loop_condition,
+        Arc::new(AtomicUsize::new(feedback_block_id as usize)),
+    )
+}
+
+/// The real `IterationEnd` on top of `prev`, sending deltas to `leader_block_id`.
+pub fn iteration_end<Delta, Op>(prev: Op, leader_block_id: BlockId) -> impl Operator<Out = ()>
+where
+    Delta: ExchangeData + Default,
+    Op: Operator<Out = Delta>,
+{
+    IterationEnd::new(prev, leader_block_id)
+}
+
+/// Receiver of the `(continue?, state)` feedback messages broadcast by the leader.
+pub struct FeedbackRx<State: ExchangeData>(FakeReceiver<StateFeedback<State>>);
+
+impl<State: ExchangeData> FeedbackRx<State> {
+    pub fn attach(net: &mut FakeNet, to: Coord) -> Self {
+        FeedbackRx(net.add_next::<StateFeedback<State>>(to, false))
+    }
+
+    /// Non-blocking receive: the list of `(continue?, state)` items of the next batch.
+    pub fn try_recv(&self) -> Option<Vec<(bool, State)>> {
+        self.0.try_recv().map(|(_, batch)| {
+            batch
+                .into_iter()
+                .filter_map(|e| e.value().cloned())
+                .map(|(r, s)| (matches!(r, IterationResult::Continue), s))
+                .collect()
+        })
+    }
+}
+
+/// The real per-host `IterationStateLock`.
+#[derive(Clone, Default)]
+pub struct StateLock(Arc<IterationStateLock>);
+
+impl StateLock {
+    pub fn new() -> Self {
+        Self::default()
+    }
+    pub fn lock(&self) {
+        self.0.lock()
+    }
+    pub fn unlock(&self) {
+        self.0.unlock()
+    }
+    pub fn wait_for_update(&self, generation: usize) {
+        self.0.wait_for_update(generation)
+    }
+}
